@@ -25,7 +25,7 @@ TEXT = {
  "C08": ("proof", "Reader::{new,refill,peek,skip_whitespace,is_eof,read_line,read,read_vec}, Readable for all 12 integer widths, String, char and tuples are verified against an ENVIRONMENT CONTRACT for io::Read that admits every short read and ErrorKind::Interrupted at every call: every result is a function of `unread` (buffer window ++ rest of the source) alone.",
          "Assumed: the Read contract (reads deliver a prefix of the remaining bytes; EOF sticky; Interrupted is transient - finite budget - and consumes nothing; hard I/O errors excluded). read_lines (map_while().collect()) is not under contract. Two genuine defects were repaired (fix: commits 8dcb638, 185acf3)."),
  "C09": ("proof", "Writer::{new,write,write_char,flush,reserve,write_bytes}, Writable for all 12 integer widths (rendering = mathematical decimal expansion, incl. MIN) and tuples of arity 2..8 are verified in BOTH build profiles (flush-per-write and buffered, -C debug-assertions=off): out' = out ++ render for every fill level; the stack buffer BASE_10_LEN is proved sufficient.",
-         "Assumed: write_all appends exactly the bytes (std handles partial writes / Interrupted); `dec` = std Display. Vec<T>, &str, String impls (enumerate / chunks) and Drop::drop are not under Verus contract (see bounded/unverified in evidence)."),
+         "Assumed: write_all appends exactly the bytes (std handles partial writes / Interrupted); `dec` = std Display. Vec<T> is proved for every length (loop head rewritten by rule R15); &str, String impls (chunks) and Drop::drop are not under Verus contract (see bounded/unverified in evidence)."),
  "C11": ("proof", "gcd, lcm, egcd, crt verified for i64, i32, i128 (gcd/lcm also u64, u32, u128): gcd is the greatest common divisor (is_gcd), lcm the least common multiple (is_lcm), egcd returns a solution iff gcd | c (Bezout), crt the unique solution in [0, lcm) iff compatible; all overflow obligations discharged under the magnitude bound.",
          "Bounds in requires: |a|,|b|,|c| <= 2^20 (i64/u64), 2^10 (i32/u32), 2^42 (128-bit); operands != T::MIN; lcm(0,0) excluded. assume_specification for iN::abs."),
  "C12": ("proof", "Bitset::{new,from_u64,set,remove,flip,test,clear,iter_bits,default}, BitsIter::{new,next} and &=, |=, ^= are verified for symbolic N against the bit view (forall i < 64N); next returns the least set index >= position.",
@@ -62,7 +62,7 @@ for pid in sorted(cfg["properties"]):
         "replay_cmd_template": "./check %s --replay {path}" % pid,
         "engine": "vlib",
         "level_claimed": {"category": cat, "text": text, "design_ref": "DESIGN.md §4 %s" % pid},
-        "level_note": note + " Trusted base common to all: Verus 0.2026.09.13 / Z3 / vstd std specs, Kani 0.68 / CBMC where used, and the extraction rules R1-R14 of DESIGN.md §3.1 (every rule application is listed in the evidence file).",
+        "level_note": note + " Trusted base common to all: Verus 0.2026.09.13 / Z3 / vstd std specs, Kani 0.68 / CBMC where used, and the extraction rules R1-R15 of DESIGN.md §3.1 (every rule application is listed in the evidence file).",
         "technique": tech,
     })
 
